@@ -239,15 +239,16 @@ fn read_paths(acc: &mut Acc) {
 pub fn native_main(tier: Tier) {
     vlib::report::quiet_panics();
     let deadline = Deadline::after(Duration::from_secs(tier.pick(40, 2400)));
+    // 70 and 250 are not multiples of the 16-byte bound record: the allocation is rounded up
     let ts: &[usize] = match tier {
-        Tier::Quick => &[64],
-        Tier::Thorough => &[64, 256],
+        Tier::Quick => &[64, 70],
+        Tier::Thorough => &[64, 70, 250, 256],
     };
     let growth_cap = tier.pick(2usize, 8);
     let mut cfgs = Vec::new();
     for &t in ts {
         for realloc in [true, false] {
-            for initial in if realloc { vec![16usize, t] } else { vec![t] } {
+            for initial in if realloc { vec![16usize + t % 16, t] } else { vec![t] } {
                 for chunks in [1usize, 3] {
                     let mut cfg = SorterCfg::scaled(t, initial, realloc, chunks, false);
                     cfg.creator = 2;
